@@ -54,6 +54,7 @@ fn main() {
         }
         let code = match args[2].as_str() {
             "e3" => worker::worker_main(&e3::E3Job::new(&args[3], tier, wseed), &wa),
+            "cut" => worker::worker_main(&props::c11::CutJob::new(tier, wseed), &wa),
             _ => 2,
         };
         std::process::exit(code);
@@ -62,6 +63,8 @@ fn main() {
         "check" => match args[2].as_str() {
             "C16" => props::c16::run(tier, seed),
             "C01" => props::c01::run(tier, seed),
+            "C10" => props::c10::run(tier, seed),
+            "C11" => props::c11::run(tier, seed),
             "C06" => e3::run_check("C06", tier, seed, &["release", "wrapping"]),
             "C07" => e3::run_check("C07", tier, seed, &["release"]),
             "C08" => e3::run_check("C08", tier, seed, &["release"]),
